@@ -42,7 +42,7 @@ Definition run_model (w : world3) (d : mdomain) (p : probe3) (allow : bool) : re
   match dget (d_actions d) (q_action p) with
   | None => Err EKey
   | Some a => do ga <- ground_action d a (q_args p);
-              apply_op_o d (v_eps w) ga (Some (v_objs w)) allow false (q_order p) (q_uorder p) (q_state p)
+              apply_op d (v_eps w) ga (Some (v_objs w)) allow false (q_order p) (q_uorder p) (q_state p)
   end.
 
 Definition is_evalue {A} (r : result A) : bool := match r with Err EValue => true | _ => false end.
